@@ -360,10 +360,14 @@ def run(prog: Program, chk: Check):
     for f_, c_, okc_ in module_constructions(prog):
         H.decide(okc_, fkey(f_, f"Module(header_cls):{norm(c_)[:40]}"), where(f_, c_), "Module created with header_cls=self.header_cls",
                  f"{f_.qual}: `{norm(c_)[:70]}` does not pass the configured header class: headers built through module.header_cls use the default layout")
-    for f_ in module_cls.methods.values():
+    for f_ in prog.module(MGR).functions.values():
         for c_ in calls_in(f_.node):
             if isinstance(c_.func, ast.Name) and c_.func.id in ("MessageHeader", "TimeCodeMessageHeader"):
                 H.bad(fkey(f_, c_), where(f_, c_), f"{f_.qual} builds a header of a fixed class: {norm(c_)[:50]}")
+        # a header class as the default of a parameter is the same thing one step removed
+        for d_ in list(f_.node.args.defaults) + [k_ for k_ in f_.node.args.kw_defaults if k_ is not None]:
+            if isinstance(d_, ast.Name) and d_.id in ("MessageHeader", "TimeCodeMessageHeader"):
+                H.bad(fkey(f_, f"default:{d_.id}"), where(f_), f"{f_.qual} defaults a parameter to the fixed header class {d_.id}: a caller that omits it writes the wrong layout")
 
     # ---- C05-Q between two recipients of one message nothing else is published (except the failure notices) ---------------------
     # A log record is republished by the manager's logger through forward_message: emitted inside the recipient loop on the
